@@ -172,7 +172,7 @@ func Gen(t *rapid.T, o GenOpts) *Plan {
 	}
 	n := 0
 	long := false
-	if o.LongShare > 0 && rapid.Float64Range(0, 1).Draw(t, "longk") < o.LongShare {
+	if o.LongShare >= 1 || (o.LongShare > 0 && rapid.IntRange(0, 9999).Draw(t, "longk") < int(o.LongShare*10000)) {
 		long = true
 		n = rapid.IntRange(o.LongMin, o.LongMax).Draw(t, "nlong")
 	} else {
